@@ -486,6 +486,7 @@ def bspecStr : BSpec Float → String
         let sqs (l : List Seq) : String := if l.isEmpty then "_" else joinWith "," ((sortSeqs l).map seqStr)
         s!"{sqs d.locFixed};{ints d.locChanging};{sqs d.extFixed};{ints d.extChanging}")
   | .hairpins st w l => s!"Hairpins {st} {w} {locTok l}"
+  | .rca rt ro og sm l => s!"RCA {kvFStr rt} {kvFStr ro} {seqsStr og} " ++ (if sm.isEmpty then "-" else joinWith "," (sm.map fbits)) ++ s!" {locTok l}"
 
 def bspec? : List String → Option (BSpec Float)
   | ["AvoidPattern", p, l] => do pure (.avoidPattern (← pat? p) (← locTok? l))
@@ -515,6 +516,9 @@ def bspec? : List String → Option (BSpec Float)
        | _ => none)
     pure (.kmers (← nat? k) (rc == "true") (← locTok? l) (← locTok? r) data)
   | ["Hairpins", st, w, l] => do pure (.hairpins (← nat? st) (← nat? w) (← locTok? l))
+  | ["RCA", rt, ro, og, sm, l] => do
+    let sm ← if sm == "-" then some [] else (sm.splitOn ",").mapM floatOf?
+    pure (.rca (← kvF? rt) (← kvF? ro) (seqs? og) sm (← locTok? l))
   | _ => none
 
 def locsOptStr : Option (List Loc) → String
